@@ -113,6 +113,8 @@ Definition diagnose (c : ctx_table) : list (name * string * name) :=
        (fun _ => plain_bvar (ct_md_valid c) v_iv) [ct_variant c] ++
   diag c "MinidumpContext::valid_registers does not filter by exactly this type's register_is_valid(reg, &self.valid)"%string
        (fun _ => plain_bvar (ct_md_filter c) v_iv) [ct_variant c] ++
+  diag c "format_register is not the prefix 0x followed by the value in hex, zero-padded to 2 digits per byte"%string
+       (fun _ => name_eqb (ct_fmt_prefix c) [48; 120] && ct_fmt_zero c && (ct_fmt_mul c =? 2)) [ct_name c] ++
   diag c "type Register is neither u32 nor u64"%string
        (fun _ => (ct_width c =? 32) || (ct_width c =? 64)) [ct_name c] ++
   diag c "default_memoize_register does not compare names exactly: a spelling set_register / get_register_always do not know (they match string literals) would be reported present"%string
